@@ -2,6 +2,7 @@ package reedsolomon
 
 import (
 	"fmt"
+	"github.com/makiuchi-d/gozxing/verifhook"
 
 	errors "golang.org/x/xerrors"
 )
@@ -28,6 +29,7 @@ type GenericGF struct {
 }
 
 func NewGenericGF(primitive, size, b int) *GenericGF {
+	verifhook.Touch("pkg.gf", nil, true)
 	this := &GenericGF{
 		primitive:     primitive,
 		size:          size,
